@@ -149,6 +149,12 @@ def exec_for(ex, s: ast.For, st):
             pass
         orig_block = ex.block
 
+        # loop targets that name mutable elements of the sequence are second names for them
+        if mode in ("plain", "reversed") and isinstance(s.target, ast.Name):
+            ex.note_alias(s.target.id, ast.Subscript(value=it if mode == "plain" else it.args[0], slice=ast.Constant(0), ctx=ast.Load()), elems[0])
+        elif mode == "enumerate" and isinstance(s.target, ast.Tuple) and isinstance(s.target.elts[1], ast.Name):
+            ex.note_alias(s.target.elts[1].id, ast.Subscript(value=it.args[0], slice=ast.Constant(0), ctx=ast.Load()), elems[0])
+
         def block_with_bind(stmts, bst):
             if stmts is s.body:
                 ex.assign(bst, s.target, val, Eval(ex, bst))
